@@ -30,12 +30,13 @@ NSCO = len(SCOS)
 CLS = {n: stix2.registry.STIX2_OBJ_MAPS["2.1"]["observables"][n] for n in SCOS}
 
 
-def choose_hash(md5: bool, sha1: bool, sha256: bool, sha512: bool, o1: bool, o2: bool, swap: bool) -> bool:
+def choose_hash(md5: bool, sha1: bool, sha256: bool, sha512: bool, o1: bool, o2: bool, swap: bool, early: bool = False) -> bool:
     """
     post: _
     """
     d = OrderedDict()
-    others = [("SHA3-256", "a"), ("SSDEEP", "b")]
+    # other algorithms: two whose names sort after the four preferred ones, or (early) two that sort before them
+    others = [("MD6", "a"), ("RIPEMD-160", "b")] if early else [("SHA3-256", "a"), ("SSDEEP", "b")]
     if swap:
         others.reverse()
     if o1:
